@@ -151,6 +151,14 @@ def run_case(case):
             # a section the reader has no table for (a later format revision): whatever it does
             # with it, no internal mapping may surface in the tree
             entries += [("Brs", "BrowseImageName", "BRS-HH.jpg"), ("Brs", "CntOfBrowse", "1")]
+        if rng.random() < 0.5:
+            # extra keywords in the sections whose ids are decoded into parts, named like such a
+            # part (round 14, C12n): whichever of the two wins, it must be a plain value
+            extra = [("Scs", rng.choice(["mission_name", "orbit_accumulation", "scene_frame", "date"]), rng.choice(["ALOS2", "7", "x y"]))]
+            if rng.random() < 0.5:
+                extra.append(("Pds", rng.choice(["observation_mode", "processing_level", "orbit_direction"]), rng.choice(["1.5", "0", "-2e3"])))
+            for e in extra:
+                entries.insert(rng.randrange(len(entries) + 1), e)
         spec["summary_entries"] = entries
     files, info = product.build_product(spec)
     out = []
